@@ -332,8 +332,10 @@ class Ctx:
         if getattr(self, 'envset', None):
             json.dump(ev, open(os.path.join(self.out, 'evidence_env.json'), 'w'), indent=1)
         elif REPO == '/repo':
-            os.makedirs(os.path.join(VERIF, 'evidence'), exist_ok=True)
-            json.dump(ev, open(os.path.join(VERIF, 'evidence', self.pid + '.json'), 'w'), indent=1)
+            # X-checks (specification coverage beyond the listed properties) keep their record apart from the per-property evidence
+            edir = os.path.join(VERIF, 'evidence_extra' if self.pid.startswith('X') else 'evidence')
+            os.makedirs(edir, exist_ok=True)
+            json.dump(ev, open(os.path.join(edir, self.pid + '.json'), 'w'), indent=1)
         else:   # a scratch copy is being checked (mutation testing): never touch the committed evidence
             json.dump(ev, open(os.path.join(self.out, 'evidence_scratch.json'), 'w'), indent=1)
         for k in self.known:
